@@ -1119,6 +1119,15 @@ def bounded(payload):
     for perm in itertools.permutations(range(4)):
         consider({"part": "program", "steps": 1, "stmts": late, "order": list(perm)})
         parts["keyword_order_and_multi_result_programs"] += 1
+    # a sum first inferred from its scalar summand alone and refined to an array of the SAME realness one sweep later
+    late2 = [{"k": "scall", "lhs": ["offs"], "fn": "<func>arr", "args": [], "kw": []},
+             {"k": "assign", "lhs": "times", "sub": None, "loops": [], "rhs": ["+", V("<t>"), V("offs")]},
+             {"k": "assign", "lhs": "twice", "sub": None, "loops": [], "rhs": ["*", C(2), V("times")]},
+             {"k": "scall", "lhs": ["coffs"], "fn": "<func>carr", "args": [], "kw": []},
+             {"k": "assign", "lhs": "ctimes", "sub": None, "loops": [], "rhs": ["+", C([0.0, 1.0]), V("coffs")]}]
+    for perm in itertools.permutations(range(5)):
+        consider({"part": "program", "steps": 1, "stmts": late2, "order": list(perm)})
+        parts["keyword_order_and_multi_result_programs"] += 1
     # constants by TYPE: complex values with a zero imaginary part, numpy scalar types (complex64 is no subclass of complex)
     for c in (C([-4.0, 0.0]), C([0.0, 0.0]), ["npc", "complex64", [0.0, 1.0]], ["npc", "complex64", [2.0, 0.0]],
               ["npc", "complex128", [1.0, 0.0]], ["npc", "float32", 2.5], ["npc", "float64", -1.5], ["npc", "int64", 3]):
